@@ -316,7 +316,7 @@ CHECKS = {
        "C17_stopped_before_return, C17_completes_partial, C17_helpers_never_stuck (neither the creation lock nor "
        "the loop lock is ever waited for for ever: a helper move is enabled whenever a helper thread is under way, "
        "unless loop_in_thread runs the loop and no stop was requested), C17_helper_moves_forward (at most eight "
-       "steps per helper thread, lifted to whole traces by C17_helper_steps_bounded), C17_awaitable_moves_forward, C17_borrow_returns, and C17_counterexample_borrowed_loop_stops (a `decide`d "
+       "steps per helper thread, lifted to whole traces by C17_helper_steps_bounded), C17_awaitable_moves_forward, C17_borrow_returns, C17_no_lock_left_behind, and C17_counterexample_borrowed_loop_stops (a `decide`d "
        "model trace in which a second caller proxies onto a borrowed loop that then stops: the full completion "
        "clause is false of the code, finding F7). Tie: 2..3 real caller threads with their own loops + the pool "
        "threads run under the baton scheduler with cooperative pool / locks / lock table / spin; the label trace "
